@@ -27,8 +27,24 @@ SOURCES = [
     '<dtml-in seq start=st size=2><dtml-var sequence-item>;</dtml-in><dtml-let x="1+1"><dtml-var x></dtml-let>'
     '<dtml-var sub><dtml-if a>A<dtml-var a><dtml-else>B</dtml-if><dtml-try><dtml-var nope><dtml-except>E</dtml-try>',
     '<dtml-in m mapping sort=k reverse><dtml-var k></dtml-in><dtml-with o><dtml-var y></dtml-with>&dtml-a;'
-    '<dtml-in m mapping reverse_expr="rv"><dtml-var k missing=-></dtml-in>',
+    '<dtml-in m mapping reverse_expr="rv"><dtml-var k missing=-></dtml-in>'
+    # what a sort specification resolves in the namespace of the render (a comparison function by name, the value of
+    # sort_expr with options) belongs to that render only
+    '|<dtml-in m mapping sort="k/cf"><dtml-var k></dtml-in>|<dtml-in m mapping sort_expr="sx"><dtml-var k></dtml-in>'
+    '|<dtml-in m mapping sort="j/cf,k/cmp/desc"><dtml-var k></dtml-in>',
 ]
+
+
+def cf_asc(a, b):
+    return (a > b) - (a < b)
+
+
+def cf_desc(a, b):
+    return (a < b) - (a > b)
+
+
+def cf_parity(a, b):
+    return cf_asc((a % 2, -a), (b % 2, -b))
 
 
 class O:
@@ -51,9 +67,11 @@ def namespaces():
     from DocumentTemplate.DT_HTML import HTML
     sub = HTML('[sub <dtml-var a> <dtml-in seq><dtml-var sequence-item></dtml-in>]')
     return [
-        {'seq': [3, 1, 2], 'sk': '', 'rv': 0, 'st': 1, 'a': 'x', 'm': [{'k': 2}, {'k': 1}, {'k': 3}], 'o': O(y='Y1'), 'sub': sub},
-        {'seq': [5, 4, 6, 7], 'sk': '', 'rv': 1, 'st': 3, 'a': '', 'm': [{'k': 9}, {'k': 8}], 'o': O(y='Y2'), 'sub': sub},
-        {'seq': [], 'sk': '', 'rv': 1, 'st': 1, 'm': [], 'o': O(y='Y3'), 'sub': sub},
+        {'seq': [3, 1, 2], 'sk': '', 'rv': 0, 'st': 1, 'a': 'x', 'm': [{'k': 2, 'j': 1}, {'k': 1, 'j': 1}, {'k': 3, 'j': 0}], 'o': O(y='Y1'), 'sub': sub,
+         'cf': cf_desc, 'sx': 'k/cmp/desc'},
+        {'seq': [5, 4, 6, 7], 'sk': '', 'rv': 1, 'st': 3, 'a': '', 'm': [{'k': 9, 'j': 2}, {'k': 8, 'j': 3}, {'k': 7, 'j': 3}], 'o': O(y='Y2'), 'sub': sub,
+         'cf': cf_asc, 'sx': 'k'},
+        {'seq': [], 'sk': '', 'rv': 1, 'st': 1, 'm': [{'k': 4, 'j': 0}, {'k': 6, 'j': 0}, {'k': 5, 'j': 1}], 'o': O(y='Y3'), 'sub': sub, 'cf': cf_parity, 'sx': 'j/cmp/asc,k/cmp/desc'},
     ]
 
 
